@@ -99,7 +99,8 @@ TEXT = {
              "saveStdoutSize are nothing but UpdateFullStatus, BaseWorkUnit wrappers) + differential runs of the real primitives by "
              "goroutines (own StatusFileData or sharing one BaseWorkUnit) and re-executed OS processes on one status file, in rounds "
              "with a parked lock holder forcing contention; every update tags the record, so the stored record shows the serial order, "
-             "which the model replays; loads by concurrent reader goroutines/processes are checked against the prefix states.",
+             "which the model replays; loads by concurrent reader goroutines/processes are checked against the prefix states; a look-up of "
+             "a unit whose lock file another process has open must leave that very file in place (the lock is the file).",
         note=BASE_NOTE + "The file lock itself (flock through lockedfile) is trusted and exercised, not proved; OS interleavings are sampled."),
     "C15": dict(
         text="Theorems effect_requires_token, refused_has_no_effect, unexpected_token_refused, unix_socket_exempt, "
